@@ -135,7 +135,7 @@ def growth_rules(chk, prog, eff, G, label):
     return nsites
 
 
-def check_insert_refusal(chk, rule, prog, eff, cache, floor=12):
+def check_insert_refusal(chk, rule, prog, eff, cache, floor=8):
     """An insertion is refused (false) only for a stated reason: the decisive - last - test of every refusing path of the
     insertion routines is (a) an allocation that returned NULL, (b) an overflow guard (_cbor_safe_to_multiply / _add) that
     answered false, or (c) the count-against-capacity comparison of the container itself (a definite container that is
@@ -172,6 +172,34 @@ def check_insert_refusal(chk, rule, prog, eff, cache, floor=12):
                         why = "count against capacity of the container"
                     elif isinstance(l, tuple) and l[0] == "call" and l[1] in _P.OPAQUE and r == ("c", 0) and ((x[1] == "eq") == val):
                         why = "overflow guard %s answered false" % l[1]
+                if why is None:
+                    # "full" tested first and the flavour afterwards (guard-clause form): no allocation was attempted, the path
+                    # compared count with capacity, and everything decided after that is a predicate of the container itself
+                    alloc_res = [e for e in pa.events if e.kind == "call" and (e.ckind == "alloc" or e.callee in ("_cbor_alloc_multiple", "_cbor_realloc_multiple"))]
+                    guards = [e for e in pa.events if e.kind == "call" and e.callee in _P.OPAQUE]
+                    cmp_at = None
+                    for i_, (t_, tr_, _x) in enumerate(pa.facts):
+                        if isinstance(t_, tuple) and t_[0] == "icmp" and len(t_) == 4 and isinstance(t_[2], tuple) and isinstance(t_[3], tuple) and \
+                                t_[2][0] == "ld" and t_[3][0] == "ld" and t_[2][1] == t_[3][1] and t_[2][2] != t_[3][2]:
+                            cmp_at = i_
+                    if cmp_at is not None and not alloc_res and not guards:
+                        rest = pa.facts[cmp_at + 1:]
+
+                        def container_predicate(t_):
+                            while isinstance(t_, tuple) and t_[0] in ("cast", "not"):
+                                t_ = t_[1] if t_[0] == "not" else t_[3]
+                            if isinstance(t_, tuple) and t_[0] == "call":
+                                ev_ = [e for e in pa.events if e.kind == "call" and e.res == t_]
+                                S_ = eff.summ.get(t_[1], {})
+                                return bool(ev_) and ev_[0].args and ev_[0].args[0] == ("arg", 0) and not S_.get("writes") and not S_.get("allocates")
+                            if isinstance(t_, tuple) and t_[0] == "icmp" and len(t_) == 4:
+                                # a field of the container other than its count and capacity (the flavour), against a constant
+                                cnt_cap = {(pa.facts[cmp_at][0][2][1], pa.facts[cmp_at][0][2][2]), (pa.facts[cmp_at][0][3][1], pa.facts[cmp_at][0][3][2])}
+                                return all(_P.is_const(x_) or (isinstance(x_, tuple) and x_[0] == "ld" and _P.derives(x_, ("arg", 0)) and
+                                                               (x_[1], x_[2]) not in cnt_cap) for x_ in t_[2:4])
+                            return False
+                        if all(container_predicate(t_) for t_, _tr, _x in rest):
+                            why = "count against capacity of the container (flavour decided afterwards)"
             chk.ob(rule, "%s path %d: a refusal is decided by the allocator, an overflow guard or the capacity of a definite container" % (name, k),
                    why is not None, where, fn=name, key="%s:refusal:%d" % (name, k),
                    detail="" if why else "refuses on %s: no allocation failed, no guard answered false and the container is not a full definite one - a "
